@@ -1175,6 +1175,16 @@ class Interp:
                 return z3.And(a, b)
             if op == "||":
                 return z3.Or(a, b)
+        if sym and ints and op in ("+", "-", "*") and getattr(self, "check_int_overflow", False):
+            # C++ int arithmetic on values the harness leaves unbounded (event counts drawn from the generator): the mathematical result
+            # must fit a 32-bit int, otherwise the machine result wraps (undefined behaviour) - an obligation like an index in range
+            r_ = {"+": a + b, "-": a - b, "*": a * b}[op]
+            self.n_safety_checked += 1
+            res, m_ = self.check(z3.Or(r_ > 2 ** 31 - 1, r_ < -2 ** 31))
+            if res == "sat":
+                self.safety_fail("signed integer overflow", n, "int %s int can leave the 32-bit range" % op, model=m_)
+            elif res != "unsat":
+                self.safety_unknown.append(("signed integer overflow", self.where(n), "undecided"))
         if op == "+":
             return a + b
         if op == "-":
@@ -1432,7 +1442,7 @@ class Interp:
         p = self.fresh("p", "int")
         lam_s = self.toreal(lam)
         # libstdc++: mean 0 returns 0 (the documented precondition mean > 0 is a separate obligation)
-        self.assume(z3.And(p >= 0, z3.Implies(lam_s <= 0, p == 0)))
+        self.assume(z3.And(p >= 0, p <= 2 ** 31 - 1, z3.Implies(lam_s <= 0, p == 0)))      # poisson_distribution<int>: the draw is an int
         pre, m = "unchecked", None
         if self.check_lib_pre:
             self.n_safety_checked += 1
